@@ -178,6 +178,12 @@ func (r *grammarOptimizer) optimize(expr0 Expression) Visitor {
 		expr.Expr = r.optimizeRule(expr.Expr)
 	case *OneOrMoreExpr:
 		expr.Expr = r.optimizeRule(expr.Expr)
+	case *RecoveryExpr:
+		// rule references directly below a recovery operator are inlined like
+		// everywhere else; leaving them alone would let the referenced rule be
+		// removed as unused once its other references have been inlined
+		expr.Expr = r.optimizeRule(expr.Expr)
+		expr.RecoverExpr = r.optimizeRule(expr.RecoverExpr)
 	case *Rule:
 		r.rule = expr.Name.Val
 		expr.Expr = r.optimizeRule(expr.Expr)
